@@ -41,7 +41,7 @@ Arguments cnt : simpl never.
 Arguments cntn : simpl never.
 
 (* which kinds can stand at which pc *)
-Definition kind_ok (u : uthr) : Prop :=
+Definition kind_pc (u : uthr) : Prop :=
   match upcf u, ukd u with
   | UFlag, UKAwait WBlock => True
   | UFlag, _ => False
@@ -52,6 +52,9 @@ Definition kind_ok (u : uthr) : Prop :=
   | UDec, UKAwait _ => False
   | _, _ => True
   end.
+(* the sync_awaiter flag is raised only by the resolver's release of a blocked user *)
+Definition kind_ok (u : uthr) : Prop :=
+  kind_pc u /\ (uflag u = true -> upcf u = UFlag \/ upcf u = UDone).
 
 Record InvA (s : st) : Prop := {
   (* reference count = handles + self reference, positive while the state lives *)
@@ -226,7 +229,12 @@ Proof.
   - destruct m; cbn; lia.
   - unfold init_cpc, next_give. destruct m; cbn; try (destruct (existsb is_wait0 us)); cbn; auto.
   - destruct m; cbn; auto.
-  - intros j u H. apply nth_error_In in H. unfold kind_ok. rewrite (W u H). destruct (ukd u); exact I.
+  - intros j u H. pose proof H as H2. apply nth_error_In in H. unfold kind_ok, kind_pc. rewrite (W u H). split; [destruct (ukd u); exact I|].
+    apply in_flat_map in H. destruct H as (l & _ & H). unfold decode_user in H.
+    repeat match type of H with
+    | In _ (match ?x with _ => _ end) => destruct x; cbn [In] in H; try contradiction
+    end.
+    destruct H as [ <- |[]]. cbn. discriminate.
   - intros w. rewrite (inl_wait0 us w W). destruct m; reflexivity.
 Qed.
 
@@ -322,7 +330,13 @@ Qed.
 
 
 Ltac norm :=
-  autorewrite with cntdb in *; rewrite ?b2n_true, ?b2n_false in *;
+  autorewrite with cntdb in *; rewrite ?b2n_true, ?b2n_false, ?Nat.eqb_refl in *;
+  repeat match goal with
+  | N : ?a <> ?b |- context[Nat.eqb ?b ?a] => rewrite (proj2 (Nat.eqb_neq b a)) by auto
+  | N : ?a <> ?b |- context[Nat.eqb ?a ?b] => rewrite (proj2 (Nat.eqb_neq a b)) by auto
+  | N : ?a <> ?b, H : context[Nat.eqb ?b ?a] |- _ => rewrite (proj2 (Nat.eqb_neq b a)) in H by auto
+  | N : ?a <> ?b, H : context[Nat.eqb ?a ?b] |- _ => rewrite (proj2 (Nat.eqb_neq a b)) in H by auto
+  end;
   try rewrite cpc_handles_next; cbn [cpc_handles own_handles] in *.
 
 Ltac split_hyps :=
@@ -330,11 +344,15 @@ Ltac split_hyps :=
   | H : _ /\ _ |- _ => destruct H
   end.
 
-Ltac fin := repeat split; try assumption; try tauto; try lia; try congruence; auto.
+Ltac fin := try assumption; repeat split; try assumption; try tauto; try lia; try congruence; auto.
 
 Ltac user_fields := cbn [ucp ukd upcf uflag useen uruns set_upc upc_handles] in *.
 
 Ltac go :=
+  try match goal with
+  | Ikd : forall j u, nth_error (users _) j = Some u -> kind_ok u, Hj : nth_error (users _) ?j = Some ?u |- _ =>
+      let K := fresh "K" in pose proof (Ikd j u Hj) as K; unfold kind_ok, kind_pc in K
+  end;
   unf; rew_hyps; norm; split_hyps; rew_hyps; norm;
   try (unfold next_give; destruct (existsb is_wait0 _));
   try match goal with
@@ -349,11 +367,18 @@ Ltac go :=
   try match goal with
   | Ikd : forall j u, nth_error (users _) j = Some u -> kind_ok u, Hj : nth_error (users _) ?j = Some ?u
     |- forall j0 u0, nth_error (set_nth _ ?j ?u') j0 = Some u0 -> kind_ok u0 =>
-      apply (kd_set_nth _ j u u' Ikd Hj); specialize (Ikd j u Hj); unfold kind_ok in *; user_fields; rew_hyps
+      apply (kd_set_nth _ j u u' Ikd Hj); specialize (Ikd j u Hj); unfold kind_ok, kind_pc in *; user_fields; rew_hyps
   end;
   fin;
+  try (let F := fresh "F" in intro F;
+       repeat match goal with H : uflag _ = true -> _ |- _ => specialize (H F) end; intuition congruence);
+  try (destruct (uflag _) eqn:?; rew_hyps; norm; fin; exfalso;
+       repeat match goal with H : true = true -> _ |- _ => specialize (H eq_refl) end; intuition congruence);
   try (destruct (selfref _) eqn:?; rew_hyps; norm; fin);
-  try (destruct (rpcf _) eqn:?; rew_hyps; fin).
+  try (destruct (rpcf _) eqn:?; rew_hyps; fin);
+  try (destruct (rk _); cbn [has_payload]; lia);
+  try (destruct (cpcf _) eqn:?; rew_hyps; norm; split_hyps; rew_hyps; norm; fin;
+       try (destruct (selfref _) eqn:?; rew_hyps; norm; fin)).
 
 Lemma inv_cstep s : Inv s -> cpcf s <> CDone -> Inv (fst (cstep s)).
 Proof.
@@ -375,8 +400,6 @@ Proof.
     rewrite touch_alive by exact A. destruct (slot s) as [l|] eqn:SL.
     + destruct (onode_eqb (head l) e).
       * mk_inv; go.
-        all: show_goals.
-        all: admit.
       * mk_inv; go.
     + mk_inv; go.
   - (* CClr *)
@@ -394,3 +417,197 @@ Proof.
     rewrite drop_ref_alive by assumption.
     destruct k as [|[|k]]; use_dropped s B; mk_inv; go.
 Qed.
+
+(* an awaiting user that holds one handle picks up the result and lets the handle go *)
+Definition done_user (s : st) (u : uthr) : uthr :=
+  mkU (ucp u) (ukd u) UDone (uflag u) (Some (payload s)) (S (uruns u)).
+
+Lemma fu_inv s j u : InvA s -> nth_error (users s) j = Some u -> upc_handles (upcf u) = 1 ->
+  InvA (finish_user s j) /\
+  users (finish_user s j) = set_nth (users s) j (done_user s u) /\
+  slot (finish_user s j) = slot s /\ walk (finish_user s j) = walk s /\ acc (finish_user s j) = acc s /\
+  rpcf (finish_user s j) = rpcf s /\ cpcf (finish_user s j) = cpcf s /\ mode (finish_user s j) = mode s /\
+  rk (finish_user s j) = rk s /\ payload (finish_user s j) = payload s /\ pavail (finish_user s j) = pavail s.
+Proof.
+  intros I Hj HU. destruct (alive_user s j u I Hj ltac:(lia)) as (A & B). open_invA I. specialize (Irc A).
+  unfold finish_user. rewrite Hj. rewrite touch_alive by exact A.
+  rewrite drop_ref_alive by (simp_st; assumption).
+  pose proof (sumu_set_nth (users s) j u (done_user s u) Hj) as SU. rewrite HU in SU. cbn [done_user upcf upc_handles] in SU.
+  fold (done_user s u).
+  use_dropped (set_user s j (done_user s u)) B; (split; [constructor|]); go.
+Qed.
+
+Ltac upd Hj u' :=
+  match type of Hj with nth_error ?l ?j = Some ?u =>
+    let SU := fresh "SU" in pose proof (sumu_set_nth l j u u' Hj) as SU; user_fields; rew_hyps; user_fields
+  end.
+
+(* own-thread completion of an await: the user is not linked anywhere *)
+Lemma fu_self s j u : Inv s -> nth_error (users s) j = Some u -> upc_handles (upcf u) = 1 -> inlist u = 0 ->
+  Inv (finish_user s j).
+Proof.
+  intros [IA OC] Hj HU IL. destruct (fu_inv s j u IA Hj HU) as (IA' & US & SL & WK & AC & _).
+  split; [exact IA'|]. intros w. specialize (OC w). unfold occ, chain in *. rewrite SL, WK, AC, US.
+  rewrite (inl_set_nth _ j u _ w Hj). destruct (Nat.eqb_spec j w) as [->|N]; [|exact OC].
+  unfold inl in OC. rewrite Hj, IL in OC. rewrite OC. reflexivity.
+Qed.
+
+Lemma inv_ustep s j : Inv s -> enabled s (S (S j)) = true -> Inv (fst (ustep s j)).
+Proof.
+  intros I E. cbn [enabled] in E. destruct (nth_error (users s) j) as [u|] eqn:Hj; [|discriminate].
+  unfold ustep. rewrite Hj. destruct (upcf u) eqn:PC; try discriminate; cbn [fst].
+  all: destruct (alive_user s j u (proj1 I) Hj ltac:(rewrite PC; cbn; lia)) as (A & B).
+  - (* UWait1 *)
+    pose proof I as I0. open_inv I. specialize (Irc A).
+    destruct (ucp u), (ukd u) eqn:KD; cbn [first_action];
+    match goal with |- Inv (set_user _ _ ?u') => upd Hj u' end; mk_inv; go.
+  - (* UInc *)
+    pose proof I as I0. open_inv I. specialize (Irc A). rewrite add_ref_alive by exact A.
+    match goal with |- Inv (set_user _ _ ?u') => upd Hj u' end; mk_inv; go.
+  - (* UDecO *)
+    pose proof I as I0. open_inv I. specialize (Irc A). rewrite drop_ref_alive by assumption.
+    destruct (ukd u) eqn:KD; cbn [first_action];
+    match goal with |- Inv (set_user _ _ ?u') => upd Hj u' end; use_dropped s B; mk_inv; go.
+  - (* UReady *)
+    rewrite touch_alive by exact A.
+    destruct (ukd u) eqn:KD.
+    + pose proof I as I0. open_inv I. specialize (Irc A).
+      match goal with |- Inv (set_user _ _ ?u') => upd Hj u' end; mk_inv; go.
+    + pose proof I as I0. open_inv I. specialize (Irc A).
+      match goal with |- Inv (set_user _ _ ?u') => upd Hj u' end; mk_inv; go.
+    + destruct (slot s) eqn:SL.
+      * pose proof I as I0. open_inv I. specialize (Irc A).
+        match goal with |- Inv (set_user _ _ ?u') => upd Hj u' end; mk_inv; go.
+      * apply (fu_self s j u I Hj); [rewrite PC; reflexivity|unfold inlist; rewrite PC; reflexivity].
+  - (* USub *)
+    rewrite touch_alive by exact A. destruct (slot s) as [l|] eqn:SL.
+    + pose proof I as I0. open_inv I. specialize (Irc A). destruct (onode_eqb (head l) exp).
+      * destruct (ukd u) as [| |[| |]] eqn:KD;
+        match goal with |- Inv (set_user _ _ ?u') => upd Hj u' end; mk_inv; go.
+      * match goal with |- Inv (set_user _ _ ?u') => upd Hj u' end; mk_inv; go.
+    + apply (fu_self s j u I Hj); [rewrite PC; reflexivity|unfold inlist; rewrite PC; reflexivity].
+  - (* UFlag *)
+    apply (fu_self s j u I Hj); [rewrite PC; reflexivity|unfold inlist; rewrite PC, E; reflexivity].
+  - (* UDec *)
+    pose proof I as I0. open_inv I. specialize (Irc A). rewrite drop_ref_alive by assumption.
+    match goal with |- Inv (set_user _ _ ?u') => upd Hj u' end; use_dropped s B; mk_inv; go.
+Qed.
+
+(* ---------- the resolver ---------- *)
+Lemma inl_pos us w : 1 <= inl us w -> exists u, nth_error us w = Some u /\ inlist u = 1.
+Proof.
+  unfold inl. destruct (nth_error us w) as [u|]; [|lia]. intros H. exists u. split; [reflexivity|].
+  unfold inlist in *. destruct (upcf u); try lia. destruct (uflag u); lia.
+Qed.
+
+Lemma inlist_handles u : inlist u = 1 -> upc_handles (upcf u) = 1.
+Proof. unfold inlist. destruct (upcf u); try discriminate; reflexivity. Qed.
+
+Lemma resume_all_inv l : forall s, InvA s ->
+  (forall w, cnt (NU w) (chain s) + cnt (NU w) (walk s) + cntn w l = inl (users s) w) ->
+  InvA (resume_all s l) /\
+  (forall w, cnt (NU w) (chain s) + cnt (NU w) (walk s) = inl (users (resume_all s l)) w) /\
+  slot (resume_all s l) = slot s /\ walk (resume_all s l) = walk s /\ acc (resume_all s l) = acc s /\
+  rpcf (resume_all s l) = rpcf s /\ cpcf (resume_all s l) = cpcf s /\ mode (resume_all s l) = mode s /\
+  rk (resume_all s l) = rk s /\ payload (resume_all s l) = payload s /\ pavail (resume_all s l) = pavail s.
+Proof.
+  induction l as [|c t IH]; intros s IA OC; cbn [resume_all].
+  - split; [exact IA|]. split; [intros w; specialize (OC w); rewrite cntn_nil in OC; lia|]. repeat split; reflexivity.
+  - assert (1 <= inl (users s) c) as P by (specialize (OC c); rewrite cntn_cons, Nat.eqb_refl in OC; lia).
+    destruct (inl_pos _ _ P) as (u & Hc & IL).
+    destruct (fu_inv s c u IA Hc (inlist_handles u IL)) as (IA' & US & SL & WK & AC & RP & CP & MD & RK & PL & PA).
+    destruct (IH (finish_user s c) IA') as (J1 & J2 & J3 & J4 & J5 & J6 & J7 & J8 & J9 & J10 & J11).
+    + intros w. specialize (OC w). unfold chain in *. rewrite SL, WK, US. rewrite cntn_cons in OC.
+      rewrite (inl_set_nth _ c u _ w Hc). destruct (Nat.eqb_spec c w) as [->|N].
+      * rewrite Nat.eqb_refl in OC. unfold inl in OC. rewrite Hc, IL in OC. cbn. lia.
+      * rewrite (proj2 (Nat.eqb_neq w c)) in OC by auto. exact OC.
+    + split; [exact J1|]. unfold chain in *. rewrite SL, WK in J2.
+      split; [exact J2|]. repeat split; congruence.
+Qed.
+
+Lemma inv_finish s : Inv s -> rpcf s = RWalk -> walk s = [] -> Inv (finish s).
+Proof.
+  intros [IA OC] RP WK. unfold finish.
+  destruct (resume_all_inv (acc s) s IA OC) as (J1 & J2 & J3 & J4 & J5 & J6 & J7 & J8 & J9 & J10 & J11).
+  set (s1 := resume_all s (acc s)) in *. clearbody s1. open_invA J1. open_invA IA.
+  mk_inv; go.
+Qed.
+
+Lemma inv_mf s : Inv s -> rpcf s = RWalk -> Inv (maybe_finish s).
+Proof.
+  intros I RP. unfold maybe_finish. destruct (walk s) eqn:W; [apply inv_finish; assumption|exact I].
+Qed.
+
+Lemma inv_rstep s : Inv s -> enabled s 1 = true -> Inv (fst (rstep s)).
+Proof.
+  intros I E. cbn [enabled] in E. unfold rstep. destruct (rpcf s) eqn:RP; try discriminate; cbn [fst].
+  - (* RXWait *)
+    open_inv I. mk_inv; go.
+  - (* RClaim *)
+    destruct (alive_pending s (proj1 I)) as (A & B). { pose proof (rs_ok s (proj1 I)) as Q. rewrite RP in Q. tauto. }
+    rewrite touch_alive by exact A. open_inv I. specialize (Irc A).
+    mk_inv; go.
+  - (* RResolve *)
+    destruct (alive_pending s (proj1 I)) as (A & B). { pose proof (rs_ok s (proj1 I)) as Q. rewrite RP in Q. tauto. }
+    rewrite touch_alive by exact A. apply inv_mf; [|reflexivity].
+    open_inv I. specialize (Irc A). destruct (slot s) as [l|] eqn:SL.
+    + mk_inv; go.
+    + exfalso. unf. rew_hyps. destruct Irs. discriminate.
+  - (* RWalk *)
+    destruct (walk s) as [|[|w] t] eqn:WK.
+    + apply inv_mf; assumption.
+    + destruct (alive_tracer s (proj1 I)) as (A & B). { unfold tcount. rewrite WK. autorewrite with cntdb. lia. }
+      rewrite touch_alive by exact A. open_inv I. specialize (Irc A).
+      mk_inv; go.
+    + (* a user node *)
+      destruct I as [IA OC].
+      assert (IA0 : InvA (set_walk s t)). { open_invA IA. constructor; go. }
+      assert (P : 1 <= inl (users s) w).
+      { specialize (OC w). unfold occ in OC. rewrite WK in OC. autorewrite with cntdb in OC. rewrite Nat.eqb_refl in OC. lia. }
+      destruct (inl_pos _ _ P) as (u & Hw & IL).
+      unfold release_node. simp_st. rewrite Hw.
+      assert (OC0 : forall w0, cnt (NU w0) (chain s) + ((if Nat.eqb w0 w then 1 else 0) + cnt (NU w0) t) + cntn w0 (acc s) = inl (users s) w0).
+      { intros w0. specialize (OC w0). unfold occ in OC. rewrite WK in OC. autorewrite with cntdb in OC. exact OC. }
+      clear OC.
+      pose proof (kd_ok s IA w u Hw) as K. unfold kind_ok, kind_pc in K.
+      unfold inlist in IL.
+      destruct (ukd u) as [| |[| |]] eqn:KD.
+      * (* not an await kind: cannot be linked *)
+        exfalso. destruct (upcf u); try discriminate; tauto.
+      * exfalso. destruct (upcf u); try discriminate; tauto.
+      * (* coroutine: collected in the suspend point *)
+        apply inv_mf; [|exact RP]. open_invA IA. split; [constructor|]; go.
+      * (* blocking: flag *)
+        apply inv_mf; [|exact RP].
+        destruct (upcf u) eqn:PC; try discriminate; try tauto.
+        destruct (uflag u) eqn:FL; [discriminate|].
+        open_invA IA.
+        match goal with |- Inv (set_user _ _ ?u') => upd Hw u' end. split; [constructor|]; go.
+      * (* callback: runs now *)
+        assert (HU : upc_handles (upcf u) = 1) by (destruct (upcf u); try discriminate; reflexivity).
+        destruct (fu_inv (set_walk s t) w u IA0 Hw HU) as (IA' & US & SL & WK' & AC & RP' & _).
+        apply inv_mf; [|rewrite RP'; exact RP].
+        split; [exact IA'|]. intros w0. specialize (OC0 w0). unfold occ, chain in *. rewrite SL, WK', AC, US. simp_st.
+        rewrite (inl_set_nth _ w u _ w0 Hw). destruct (Nat.eqb_spec w w0) as [->|N].
+        -- rewrite Nat.eqb_refl in OC0. unfold inl in OC0. rewrite Hw in OC0. unfold inlist in OC0.
+           cbn [done_user inlist upcf]. destruct (upcf u); try discriminate; try lia.
+        -- rewrite (proj2 (Nat.eqb_neq w0 w)) in OC0 by auto. exact OC0.
+  - (* RClr *)
+    destruct (alive_tracer s (proj1 I)) as (A & B). { unfold tcount. rewrite RP. lia. }
+    rewrite touch_alive by exact A. rewrite drop_ref_alive by (simp_st; assumption).
+    apply inv_mf.
+    2: { simp_st. reflexivity. }
+    open_inv I. specialize (Irc A).
+    use_dropped (set_selfref s false) B; mk_inv; go.
+Qed.
+
+Theorem inv_step s i : Inv s -> enabled s i = true -> Inv (fst (tstep s i)).
+Proof.
+  intros I E. destruct i as [|[|j]]; cbn [tstep].
+  - apply inv_cstep; [exact I|]. cbn [enabled] in E. destruct (cpcf s); congruence.
+  - apply inv_rstep; assumption.
+  - apply inv_ustep; assumption.
+Qed.
+
+Theorem inv_reachable ops s : reachable ops s -> Inv s.
+Proof. induction 1; [apply inv_init|apply inv_step; assumption]. Qed.
